@@ -11,9 +11,15 @@
     variables and reads/writes only memory it allocated or was given exclusively". The Go memory
     model, the runtime's mutex implementation, and the confinement abstraction itself are not
     proved; they are validated at run time under the race detector (harness/cmd/c18race).
-    Deadlock freedom is not stated (the checker only rejects re-acquisition of a held mutex). *)
+    Deadlock freedom IS stated, of the same machine (proofs/LocksDeadlock.v): its RW-mutex has no
+    writer preference (an RLock succeeds whenever no writer holds the mutex), so no fairness is
+    involved and the statement is "in every reachable state in which some thread has work left,
+    some thread can take a step". Go's sync.RWMutex blocks new readers behind a waiting writer; the
+    only extra waiting that adds is a reader waiting, on a mutex it does not hold, for a writer that
+    waits for readers of that same mutex - covered by the same order argument on paper (a thread
+    that holds a FeeQuote mutex acquires nothing), but NOT by these theorems. *)
 From Coq Require Import List String Bool Arith PeanoNat.
-From GoBT Require Import model.Locks spec.RaceSpec proofs.LocksProofs proofs.AuditD18.
+From GoBT Require Import model.Locks spec.RaceSpec proofs.LocksProofs proofs.AuditD18 proofs.LocksDeadlock.
 From GoBT Require gen.Locks gen.Globals.
 Import ListNotations.
 Local Open Scope string_scope.
@@ -108,12 +114,54 @@ Theorem C18_guarded_fields_all_accessed :
 Proof. exact guarded_fields_all_accessed. Qed.
 Print Assumptions C18_guarded_fields_all_accessed.
 
-(** LOCK ORDER certificate (deadlock freedom itself is not stated, see the header): in every path of
-    every method, calls inlined, a receiver's mutex is acquired only with nothing held, an element's
-    only with at most the receiver's held, and nothing is acquired under an element's mutex *)
+(** LOCK ORDER certificate: in every path of every method, calls inlined, a receiver's mutex is
+    acquired only with nothing held, an element's only with at most the receiver's held, and nothing
+    is acquired under an element's mutex *)
 Theorem C18_fee_table_lock_ordered : lock_ordered fee_table = true /\ fee_table <> [].
 Proof. exact fee_table_lock_ordered. Qed.
 Print Assumptions C18_fee_table_lock_ordered.
+
+(** DEADLOCK FREEDOM, for all tables, thread counts, programs of method calls and schedules: a table
+    that passes the discipline checker and the lock-order checker never reaches a state in which
+    some thread has work left and no thread can take a step *)
+Theorem C18_well_locked_ordered_deadlock_free : forall tbl, well_locked tbl = true -> lock_ordered tbl = true ->
+  forall (mem0 : loc -> value) (P : tid -> list call), (forall t, forallb call_ok (P t) = true) ->
+  forall s, reachable (init_state mem0 (call_progs tbl P)) s -> ~ stuck s.
+Proof. exact deadlock_free_proof. Qed.
+Print Assumptions C18_well_locked_ordered_deadlock_free.
+
+(** the same, positively (and constructively: the thread is found by following at most two
+    "waits for the holder of" links from any thread with work left): in every reachable state in
+    which some thread has work left, some thread can take a step *)
+Theorem C18_well_locked_ordered_progress : forall tbl, well_locked tbl = true -> lock_ordered tbl = true ->
+  forall (mem0 : loc -> value) (P : tid -> list call), (forall t, forallb call_ok (P t) = true) ->
+  forall s, reachable (init_state mem0 (call_progs tbl P)) s ->
+  (exists t, prog (thr s t) <> []) -> exists t s', step s t 0 = Some s'.
+Proof. exact progress_proof. Qed.
+Print Assumptions C18_well_locked_ordered_progress.
+
+(** why: when a thread waits (is positioned at an acquire of [o0]) for a thread that itself waits
+    (holds [o0], positioned at an acquire of [o1]), then [o0] is a container's mutex, the first
+    thread holds nothing, [o1] is a FeeQuote's mutex, and whoever holds [o1] can step *)
+Theorem C18_waiting_chains_are_short : forall tbl, well_locked tbl = true -> lock_ordered tbl = true ->
+  forall (mem0 : loc -> value) (P : tid -> list call), (forall t, forallb call_ok (P t) = true) ->
+  forall s, reachable (init_state mem0 (call_progs tbl P)) s ->
+  forall t0 t1 o0 m0 r0 m0' o1 m1 r1,
+    prog (thr s t0) = GAcq o0 m0 :: r0 -> In (o0, m0') (held (thr s t1)) ->
+    prog (thr s t1) = GAcq o1 m1 :: r1 ->
+    is_leaf o0 = false /\ is_leaf o1 = true /\ held (thr s t0) = [] /\
+    forall t2 m1', In (o1, m1') (held (thr s t2)) -> exists s', step s t2 0 = Some s'.
+Proof. exact waiting_chain_short_proof. Qed.
+Print Assumptions C18_waiting_chains_are_short.
+
+(** ... for fees.go as it is now: the GENERATED table passes both checkers, hence no deadlock and
+    progress, whatever the threads call and however they are scheduled *)
+Theorem C18_fee_quotes_deadlock_free : forall tbl, dec_table gen.Locks.fee_methods = Some tbl ->
+  forall (mem0 : loc -> value) (P : tid -> list call), (forall t, forallb call_ok (P t) = true) ->
+  forall s, reachable (init_state mem0 (call_progs tbl P)) s ->
+  ~ stuck s /\ ((exists t, prog (thr s t) <> []) -> exists t s', step s t 0 = Some s').
+Proof. exact (fee_quotes_deadlock_free_from C18_table_is_well_locked C18_fee_table_lock_ordered). Qed.
+Print Assumptions C18_fee_quotes_deadlock_free.
 
 (** schedules given as lists are reachable states (so the theorems cover every [run]) *)
 Theorem C18_run_reachable : forall sched s s', run s sched = Some s' -> reachable s s'.
@@ -174,6 +222,48 @@ Proof.
   - eexists; eexists; split; [vm_compute; reflexivity | reflexivity].
   - eexists; eexists; split; [vm_compute; reflexivity | reflexivity].
 Qed.
+
+(** the model does exhibit deadlocks, and the lock-order checker is what excludes them: a table whose
+    method A locks receiver then element and whose method B locks element then receiver passes the
+    discipline checker, fails the order checker, and two threads calling A and B on the same pair of
+    objects reach (after one step each) a state where both have work left and nobody can step.
+    (With read locks instead the same table does not deadlock in this machine: no writer preference.) *)
+Definition ab_ba : rawtable :=
+  [("FeeQuotes", "A", [[("acquire","self","W"); ("acquire","elem","W"); ("release","elem","W"); ("release","self","W")]]);
+   ("FeeQuotes", "B", [[("acquire","elem","W"); ("acquire","self","W"); ("release","self","W"); ("release","elem","W")]])].
+Definition ab_table : list method := match dec_table ab_ba with Some t => t | None => [] end.
+Definition ab_P (t : tid) : list call :=
+  match t with
+  | 0 => [mkCall TFeeQuotes "A" 0 0 7 0]
+  | 1 => [mkCall TFeeQuotes "B" 0 0 7 0]
+  | _ => []
+  end.
+Example C18_opposite_orders_deadlock :
+  well_locked_raw ab_ba = true /\ lock_ordered ab_table = false /\
+  (forall t, forallb call_ok (ab_P t) = true) /\
+  exists s, reachable (init_state (fun _ => 0) (call_progs ab_table ab_P)) s /\ stuck s.
+Proof.
+  split; [vm_compute; reflexivity|]. split; [vm_compute; reflexivity|].
+  split; [intros [|[|t]]; reflexivity|].
+  destruct (run (init_state (fun _ => 0) (call_progs ab_table ab_P)) [(0,0);(1,0)]) as [s|] eqn:E; [|vm_compute in E; discriminate].
+  exists s. split; [eapply run_reachable; eauto|].
+  vm_compute in E. inversion E; subst s; clear E.
+  split; [exists 0; discriminate|].
+  intros [|[|t]] g; reflexivity.
+Qed.
+
+(** the lock-order checker alone: a method that takes the receiver's mutex under the element's, or a
+    second mutex of the same kind under the first, is rejected; the nested pattern of fees.go
+    (receiver, then element through a call, released inside) is accepted *)
+Definition lock_ordered_raw (r : rawtable) : bool :=
+  match dec_table r with Some t => lock_ordered t | None => false end.
+Example C18_order_checker_rejects :
+  lock_ordered_raw [("FeeQuotes", "B", [[("acquire","elem","W"); ("acquire","self","W"); ("release","self","W"); ("release","elem","W")]])] = false /\
+  lock_ordered_raw [("FeeQuotes", "B", [[("acquire","elem","R"); ("acquire","self","R"); ("release","self","R"); ("release","elem","R")]])] = false /\
+  lock_ordered_raw [("FeeQuotes", "A", [[("acquire","self","R"); ("call","elem","B"); ("release","self","R")]]);
+                    ("FeeQuote", "B", [[("acquire","self","R"); ("read","self","fees"); ("release","self","R")]])] = true /\
+  lock_ordered_raw gen.Locks.fee_methods = true.
+Proof. vm_compute. repeat split. Qed.
 
 (** a method that calls a locking method of the same receiver while holding its mutex is rejected
     (sync.RWMutex is not re-entrant: self-deadlock), as is a read under no lock, a write under a
